@@ -89,3 +89,17 @@ def selftest(ctx, groups, files, rejected_tids):
             raise vlib.Infra("binding self-test: trace with a dropped event was accepted")
         return
     raise vlib.Infra("binding self-test: no accepted trace with deliveries")
+
+
+def threaded(ctx, prop, rounds):
+    """Real threads, real scheduler: concurrent writers and subscribers of every kind (harness/c02 TestThreaded); the trace is
+    written by the linearization-point hooks inside the collection and judged by TraceInmem."""
+    binary = vlib.go_build_test(ctx, "c02")
+    henv, hdir = inmemlib.traced(ctx, "threaded")
+    vlib.go_run(ctx, binary, "TestThreaded", dict({"VERIF_ROUNDS": rounds}, **henv), timeout=2400)
+    traces = inmemlib.judge_driver(ctx, prop, hdir, "TestThreaded")
+    flat = [r for t in traces for r in t]
+    ctx.cov["threaded_rounds"] = rounds
+    ctx.cov["threaded_overruns"] = len([r for r in flat if r["ev"] == "wread" and r["over"]])
+    ctx.cov["threaded_late_reads"] = len([r for r in flat if r["ev"] == "wread" and not r["over"] and r["wp"] - (r["pos"] if r["raw"] else r["npos"]) > 1])
+    ctx.cov["threaded_resumes"] = len([r for r in flat if r["ev"] == "wstart" and r["mode"] == "bookmark"])
